@@ -124,29 +124,71 @@ def run (A : Arith) : St → List Op → Res (St × List Ev)
     | .panic k => .panic k
 
 
-/-- Scan the callbacks that concern stream `sid`.  State: "ReassemblyComplete was already called".
-    `none` = a ReassembledSG or a second ReassemblyComplete arrived after the completion. -/
-def lifeScan (sid : Nat) : Bool → List Ev → Option Bool
-  | b, [] => some b
-  | b, .created _ _ :: rest => lifeScan sid b rest
-  | b, .sg _ s _ _ :: rest => if s = sid then (if b then none else lifeScan sid b rest) else lifeScan sid b rest
-  | b, .done _ s _ :: rest => if s = sid then (if b then none else lifeScan sid true rest) else lifeScan sid b rest
+/-- Life of ONE stream as its callbacks show it. -/
+inductive Life where
+  | fresh      -- StreamFactory.New was not called for it (yet)
+  | alive      -- created, ReassemblyComplete not called yet
+  | done       -- ReassemblyComplete was called
+  deriving Repr, DecidableEq, Inhabited
 
+/-- does the callback concern stream `sid` (creation, data or completion)? -/
+def Ev.mentions (sid : Nat) : Ev → Bool
+  | .created _ s => decide (s = sid)
+  | .sg _ s _ _ => decide (s = sid)
+  | .done _ s _ => decide (s = sid)
+
+/-- The only legal callback order for a stream: `New`, then `ReassembledSG`*, then `ReassemblyComplete` once,
+    then nothing.  `none` = the callback is illegal in state `l` (data or a second completion after the
+    completion, anything before the creation, a second creation). -/
+def lifeStep (sid : Nat) (l : Life) (e : Ev) : Option Life :=
+  if e.mentions sid then
+    match l, e with
+    | .fresh, .created _ _ => some .alive
+    | .alive, .sg _ _ _ _ => some .alive
+    | .alive, .done _ _ _ => some .done
+    | _, _ => none
+  else some l
+
+/-- run the callbacks `evs` through the life-cycle automaton of stream `sid` -/
+def life (sid : Nat) : Life → List Ev → Option Life
+  | l, [] => some l
+  | l, e :: rest =>
+    match lifeStep sid l e with
+    | some l' => life sid l' rest
+    | none => none
+
+/-- number of `ReassemblyComplete` calls on stream `sid` -/
 def doneCount (sid : Nat) (evs : List Ev) : Nat :=
-  (evs.filter (fun e => match e with | .done _ s _ => s = sid | _ => false)).length
+  (evs.filter (fun e => match e with | .done _ s _ => decide (s = sid) | _ => false)).length
 
-def findSid (sid : Nat) : List Conn → Option Conn
-  | [] => none
-  | c :: rest => if c.sid = sid then some c else findSid sid rest
+/-- number of `StreamFactory.New` calls that produced stream `sid` -/
+def createdCount (sid : Nat) (evs : List Ev) : Nat :=
+  (evs.filter (fun e => match e with | .created _ s => decide (s = sid) | _ => false)).length
 
+/-- both directions of the connection are closed -/
 def Conn.done (c : Conn) : Bool := c.c2s.closed && c.s2c.closed
 
-/-- stream `sid` has been created and its connection is finished (both directions closed, or already removed) -/
-def doneOpt : Option Conn → Bool
-  | some c => c.done
-  | none => true
+def Life.ofDone (b : Bool) : Life := if b then .done else .alive
 
-def completed (st : St) (sid : Nat) : Bool :=
-  decide (sid < st.nextSid) && doneOpt (findSid sid st.conns)
+/-! ### age-based flush (C11) -/
+
+/-- pages that follow sequence number `last` without a gap (what `addContiguous` takes) -/
+def Contig (A : Arith) : Int → List Page → Prop
+  | _, [] => True
+  | last, p :: rest => A.diff last p.seq = 0 ∧ Contig A (A.add last p.bytes.length) rest
+
+/-- One ReassembledSG call made by an age-based flush with cut-off `T`: its new bytes are the bytes of the queued
+    pages `grp`; the first of them was seen before `T`, the others follow it without a gap. -/
+def OldGroup (A : Arith) (T : Int) (grp : List Page) (g : SG) : Prop :=
+  ∃ p run, grp = p :: run ∧ p.seen < T ∧ Contig A (A.add p.seq p.bytes.length) run ∧
+    g.new = (grp.map (fun q => q.bytes)).flatten
+
+/-- the first queued page (the one a flush looks at) was not seen before `T` -/
+def HeadNotOld (T : Int) : List Page → Prop
+  | [] => True
+  | p :: _ => ¬ p.seen < T
+
+/-- the queue is oldest-first: no page is queued in front of a page seen earlier -/
+def SeenSorted (q : List Page) : Prop := q.Pairwise (fun a b => a.seen ≤ b.seen)
 
 end Gp.Reasm
